@@ -7,8 +7,9 @@
 //!                 single matcher over the modelled domain, as multisets of binding maps;
 //!   * `pg-run`    ManyMatcher::find_matches vs the modelled traversal on the dump of the real
 //!                 automaton, as multisets of (pattern, binding map);
-//!   * `pg-cert`   the verified structural checker (C09) and the soundness certificate lab_ok (C01,
-//!                 Theorem c01_portgraph_run_sound) on the dump of every port-graph automaton.
+//!   * `pg-cert`   the verified structural checker (C09), the soundness certificate lab_ok (C01,
+//!                 c01_portgraph_run_sound) and the completeness certificate (c02_portgraph_partial)
+//!                 on the dump of every port-graph automaton.
 //! Orders that depend on hash-map iteration inside root_candidates.rs are not modelled: every
 //! result is canonicalised (entries of a map in key order, lists sorted by their text).
 use crate::c10::{pgcons_s, pgkey_s};
@@ -180,7 +181,7 @@ pub fn eval(rng: &mut Rng, pats: &[(G, usize)], host: &G, heurs: &[Heur], o: &mu
             None => "(panic)".to_string(),
         };
         o.case(sexp::l(vec![sexp::a("pg-run"), dump.clone(), sexp::l(vec![host_s.clone()])]).to_string(), format!("({})", exp), built.n_states >= 3);
-        o.case(sexp::l(vec![sexp::a("pg-cert"), dump, sexp::list(&present, |x| sexp::b(*x)), S::L(all_css.clone())]).to_string(), "(wf 1 sound 1)".to_string(), built.n_states >= 3);
+        o.case(sexp::l(vec![sexp::a("pg-cert"), dump, sexp::list(&present, |x| sexp::b(*x)), S::L(all_css.clone())]).to_string(), "(wf 1 sound 1 complete 1)".to_string(), built.n_states >= 3);
     }
     o.count("pgm_patterns", pats.len());
 }
@@ -200,4 +201,15 @@ pub fn run(tier: Tier, seed: u64, o: &mut Out) {
         }
     }
     o.notes.push(format!("port-graph host model: {} random pattern sets x 1-3 hosts; list_bind_options on grown binding maps, single matcher, traversal on dumped automata (3 heuristics), wf_check on every dump", n));
+}
+
+/// replay one (pattern set, host) pair: `(pgmcase <ignored> ((graph root) ...) host ...)` — the format of `pgcase`
+pub fn replay(line: &str, o: &mut Out) {
+    let s = sexp::parse(line).unwrap();
+    let l = s.as_list();
+    let pats: Vec<(G, usize)> = l[2].as_list().iter().map(|p| { let v = p.as_list(); (G::from_s(&v[0]), v[1].as_usize()) }).collect();
+    let host = G::from_s(&l[3]);
+    let mut rng = Rng::new(1);
+    let heurs = vec![Heur::Default, Heur::Never, Heur::Seq((0..12).map(|i| i % 2 == 0).collect())];
+    eval(&mut rng, &pats, &host, &heurs, o);
 }
